@@ -29,11 +29,13 @@ func (e *Engine) intrinsic(fr *Frame, st *State, name string, fn *ssa.Function, 
 		qs := st.clone()
 		qs.pc = tTrue // the quantified formula is used under the caller's path condition
 		e.boundVars = append(e.boundVars, bv)
+		e.pushLets()
 		body := e.callStatic(fr, qs, fv.fn, fv.binds, []Val{bv}, pos)
 		e.boundVars = e.boundVars[:len(e.boundVars)-1]
 		e.noOblig--
 		e.inlineTerms--
 		bt := body.(T)
+		bt.S = e.popLets(bt.S)
 		guard := e.typeInv(bv, pt, 0)
 		q := "forall"
 		if name == "GvcExists" {
@@ -281,7 +283,11 @@ func (e *Engine) appendModel(fr *Frame, st *State, s T, tv Val, sT, tT types.Typ
 		res = e.name(T{fmt.Sprintf("(ite (= %s 0) %s (mk_slice %s %s %s %s))", n2.S, s.S, rbase.S, roff.S, total.S, rcap.S), sSlice}, "app")
 	}
 	if _, isS := isStruct(et); isS && !e.isIntrinsicStruct(et) {
-		e.appendStructElems(st, s, t, et, inplace, nb)
+		if known == 1 {
+			e.appendOneStruct(st, s, t, et, inplace, nb, res)
+		} else {
+			e.appendStructElems(st, s, t, et, inplace, nb)
+		}
 		return res
 	}
 	hn, hs := e.elemHeap(et)
@@ -323,6 +329,38 @@ func (e *Engine) appendModel(fr *Frame, st *State, s T, tv Val, sT, tT types.Typ
 	return res
 }
 
+// appendOneStruct: append(s, x) for struct elements: explicit stores per field heap.
+func (e *Engine) appendOneStruct(st *State, s, t T, et types.Type, inplace, nb, res T) {
+	skey, sty := e.structKeyOf(et)
+	n1 := T{app("slen", s), sInt}
+	sb, so := T{app("sbase", s), sRef}, T{app("soff", s), sInt}
+	tb, to := T{app("sbase", t), sRef}, T{app("soff", t), sInt}
+	for i := 0; i < sty.NumFields(); i++ {
+		ft := sty.Field(i).Type()
+		if _, ok := isStruct(ft); ok {
+			e.unsupported("append of structs with nested struct fields")
+		}
+		hn := e.fieldHeapName(skey, sty, i)
+		h := e.heap(st, hn, arraySort(sRef, e.sortOf(ft)))
+		x := e.name(tSel(h, T{app("eref", tb, to), sRef}), "x")
+		inpl := tStore(h, T{fmt.Sprintf("(eref %s (+ %s %s))", sb.S, so.S, n1.S), sRef}, x)
+		g := e.fresh(h.Sort, "gr_"+hn)
+		e.assume(st, T{fmt.Sprintf("(forall ((r Ref)) (! (=> (not (and (= (rkind r) 1) (= (ebase r) %s))) (= (select %s r) (select %s r))) :pattern ((select %s r))))", nb.S, g.S, h.S, g.S), sBool})
+		e.assume(st, T{fmt.Sprintf("(forall ((i Int)) (! (=> (and (<= 0 i) (< i %s)) (= (select %s (eref %s i)) (select %s (eref %s (+ %s i))))) :pattern ((select %s (eref %s i)))))", n1.S, g.S, nb.S, h.S, sb.S, so.S, g.S, nb.S), sBool})
+		e.assume(st, T{fmt.Sprintf("(= (select %s (eref %s %s)) %s)", g.S, nb.S, n1.S, x.S), sBool})
+		e.recStoreIf(st, hn, T{sb.S, "ELEMS"}, inplace)
+		e.recStore(st, hn, T{nb.S, "ELEMS"})
+		e.setHeap(st, hn, tIte(inplace, inpl, g))
+		nh := e.heap(st, hn, h.Sort)
+		// forward trigger: a known element of s yields the corresponding element of the result
+		e.assume(st, T{fmt.Sprintf("(forall ((k Int)) (! (=> (and (<= %s k) (< k (+ %s %s))) (= (select %s (eref (sbase %s) (+ (soff %s) (- k %s)))) (select %s (eref %s k)))) :pattern ((select %s (eref %s k)))))",
+			so.S, so.S, n1.S, nh.S, res.S, res.S, so.S, h.S, sb.S, h.S, sb.S), sBool})
+		// backward trigger
+		e.assume(st, T{fmt.Sprintf("(forall ((k Int)) (! (=> (and (<= (soff %s) k) (< k (+ (soff %s) %s))) (= (select %s (eref (sbase %s) k)) (select %s (eref %s (+ %s (- k (soff %s))))))) :pattern ((select %s (eref (sbase %s) k)))))",
+			res.S, res.S, n1.S, nh.S, res.S, h.S, sb.S, so.S, res.S, nh.S, res.S), sBool})
+	}
+}
+
 func (e *Engine) appendStructElems(st *State, s, t T, et types.Type, inplace, nb T) {
 	skey, sty := e.structKeyOf(et)
 	n1 := T{app("slen", s), sInt}
@@ -347,7 +385,8 @@ func (e *Engine) appendStructElems(st *State, s, t T, et types.Type, inplace, nb
 		e.assume(st, T{fmt.Sprintf("(=> (not %s) (forall ((i Int)) (! (=> (and (<= 0 i) (< i %s)) (= (select %s (eref %s i)) (select %s (eref %s (+ %s i))))) :pattern ((eref %s i)))))", inplace.S, n1.S, nh.S, nb.S, h.S, sb.S, so.S, nb.S), sBool})
 		// appended elements
 		e.assume(st, T{fmt.Sprintf("(forall ((j Int)) (! (=> (and (<= 0 j) (< j %s)) (= (select %s (eref %s (+ %s %s j))) (select %s (eref %s (+ %s j))))) :pattern ((eref %s (+ %s %s j)))))", n2.S, nh.S, db.S, do.S, n1.S, h.S, tb.S, to.S, db.S, do.S, n1.S), sBool})
-		e.recWild(hn)
+		e.recStoreIf(st, hn, T{sb.S, "ELEMS"}, inplace)
+		e.recStore(st, hn, T{nb.S, "ELEMS"})
 		st.heaps[hn] = nh
 	}
 }
@@ -656,6 +695,7 @@ func init() {
 		"slices.BinarySearchFunc": modelBinarySearchFunc,
 		"slices.IndexFunc":        modelIndexFunc,
 		"slices.ContainsFunc":     modelContainsFunc,
+		"slices.Equal":            modelSlicesEqual,
 		"reflect.TypeOf":          modelReflectTypeOf,
 	}
 	for k, v := range models {
@@ -900,7 +940,9 @@ func (e *Engine) quantInt(st *State, q string, body func(s *State, i T) T) T {
 	qs := st.clone()
 	qs.pc = tTrue
 	e.boundVars = append(e.boundVars, bv)
+	e.pushLets()
 	b := body(qs, bv)
+	b.S = e.popLets(b.S)
 	e.boundVars = e.boundVars[:len(e.boundVars)-1]
 	e.noOblig--
 	e.inlineTerms--
@@ -992,4 +1034,14 @@ func modelContainsFunc(e *Engine, fr *Frame, st *State, fn *ssa.Function, args [
 func modelReflectTypeOf(e *Engine, fr *Frame, st *State, fn *ssa.Function, args []Val, pos token.Pos) Val {
 	x := args[0].(T)
 	return e.name(tIte(tEq(x, tIfNil), tIfNil, T{fmt.Sprintf("(if_int %d (dtyp %s))", e.pseudoTypeID("*reflect.rtype"), x.S), sIface}), "rtype")
+}
+
+// slices.Equal(a, b): same length and element-wise equal.
+func modelSlicesEqual(e *Engine, fr *Frame, st *State, fn *ssa.Function, args []Val, pos token.Pos) Val {
+	a, b := args[0].(T), args[1].(T)
+	et := sliceElemType(fn.Signature.Params().At(0).Type())
+	all := e.quantInt(st, "forall", func(s *State, i T) T {
+		return tImp(inRange(i, a), tEq(e.elemAt(s, a, i, et), e.elemAt(s, b, i, et)))
+	})
+	return tAnd(T{fmt.Sprintf("(= (slen %s) (slen %s))", a.S, b.S), sBool}, all)
 }
